@@ -2,6 +2,7 @@ import FranzVerif.Model.Conn
 import FranzVerif.Proof.C22Frame
 import FranzVerif.Proof.Conn
 import FranzVerif.Proof.ConnInv
+import FranzVerif.Proof.ConnSasl
 /-! C22 — responses are matched to their requests; hostile bytes are safe.
 
 Two layers. (1) Theorems over ALL histories the connection monitor `Model.Conn` accepts (every interleaving of
@@ -9,6 +10,12 @@ issue / wire / frame / outcome events, every byte stream, every disconnect point
 correspondence of the `conn` scenarios (real kgo client × scripted peer in synctest bubbles). (2) Theorems about
 `Model.C22Frame.parseFrame`, the Lean model of `readConn` / `parseReadSize` / `readResponse` / `SkipTags`, tied to
 the code by the error-class comparison of the same scenarios.
+
+The vocabulary includes KIP-368 re-authentication (SASL scenarios: requests in flight across the session expiry,
+requests PARKED behind them, then a disconnect / read timeout / cancellation / clean drain): `exactly_one_outcome`
+holds over all of it, and `failed_request_never_written_later`, `parked_request_written_only_after_reauthentication`,
+`written_at_most_once`, `delivered_request_written_exactly_once` say what may happen to a parked request: failed by
+the disconnect and never replayed, or replayed exactly once after the re-authentication.
 
 The last clause of the property, "never … waits beyond the configured timeouts", as a parser statement: the work
 per response is linear in the bytes received, `parseFrame_steps_linear` (every header kind). It was FALSE before the
@@ -101,6 +108,69 @@ theorem nothing_delivered_behind_a_refused_frame (h₁ h₂ : List Ev) (i : Nat)
   rw [hfind] at hexp
   simp only [hxc, hf, this] at hexp
   simp at hexp
+
+
+/-! ### parked requests (SASL re-authentication) -/
+
+/-- A request that was failed (or answered) is never replayed: no request reaches the wire at a later time than its
+outcome. In particular a request parked for a pending re-authentication and failed by the death of its connection
+(`die` → `failParked`) is not written afterwards (the replay of `handleReauthDrain` must not see it). -/
+theorem failed_request_never_written_later (h₁ h₂ : List Ev) (w : Waiter)
+    (hacc : (run {} (h₁ ++ Ev.written w :: h₂)).isSome) (t : Nat)
+    (hout : (∃ cls, Ev.err w.id cls t ∈ h₁) ∨ (∃ f, Ev.ok w.id f t ∈ h₁)) : w.tw ≤ t := by
+  obtain ⟨sf, hs⟩ := Option.isSome_iff_exists.1 hacc
+  obtain ⟨s, hr, hchk⟩ := run_split hs
+  have inv := inv_of_run hr
+  have sinv := sinv_of_run hr
+  have hmem : ∃ b, (w.id, b, t) ∈ s.outs := by
+    rcases hout with ⟨cls, he⟩ | ⟨f, he⟩
+    · exact sinv.outsMem _ he w.id t rfl
+    · exact sinv.outsMem _ he w.id t rfl
+  obtain ⟨b, hb⟩ := hmem
+  have hfind := find?_out_of_nodup inv.outsNodup hb
+  have hno := written_check_time hchk
+  have h1 : hasOut s w.id = true := by
+    unfold hasOut; exact List.any_eq_true.2 ⟨_, hb, by simp⟩
+  have h2 : outTime s w.id = t := by
+    unfold outTime; rw [hfind]
+  rw [h2] at hno
+  exact Nat.le_of_not_lt (fun hlt => hno ⟨h1, hlt⟩)
+
+/-- A parked request reaches the wire only on a connection that completed an authentication after the request was
+(last) parked: the history before the write contains the parking, then the peer's successful SASLAuthenticate answer
+on that very connection, and no parking of the request in between. -/
+theorem parked_request_written_only_after_reauthentication (h₁ h₂ : List Ev) (w : Waiter) (tp : Nat)
+    (hacc : (run {} (h₁ ++ Ev.written w :: h₂)).isSome) (hp : Ev.park w.id tp ∈ h₁) :
+    ∃ a b c tp' n l t, h₁ = a ++ Ev.park w.id tp' :: b ++ Ev.authEnd w.c n l t :: c ∧ c.any (isPark w.id) = false := by
+  obtain ⟨sf, hs⟩ := Option.isSome_iff_exists.1 hacc
+  obtain ⟨s, hr, hchk⟩ := run_split hs
+  have sinv := sinv_of_run hr
+  exact sinv.ready _ _ (written_check_ready hchk (sinv.parkedMem _ _ hp))
+
+/-- No request is written twice (a parked request is replayed at most once). -/
+theorem written_at_most_once (h : List Ev) (hacc : (run {} h).isSome) (i : Nat) : (writtenIds h).count i ≤ 1 := by
+  obtain ⟨s, hr⟩ := Option.isSome_iff_exists.1 hacc
+  have inv := inv_of_run hr
+  have sinv := sinv_of_run hr
+  have hnd := inv.waitersNodup
+  rw [sinv.waiters] at hnd
+  exact List.nodup_iff_count.1 hnd i
+
+/-- A request that gets a response (so it was not failed: e.g. a parked request after a clean drain) was written
+exactly once. -/
+theorem delivered_request_written_exactly_once (h : List Ev) (hacc : (run {} h).isSome) (i : Nat) (f : Int) (t : Nat)
+    (hok : Ev.ok i f t ∈ h) : (writtenIds h).count i = 1 := by
+  obtain ⟨s, hr⟩ := Option.isSome_iff_exists.1 hacc
+  have hle := written_at_most_once h hacc i
+  obtain ⟨h₁, h₂, rfl⟩ := List.append_of_mem hok
+  obtain ⟨s₁, hr₁, hchk⟩ := run_split hr
+  obtain ⟨_, body, hexp⟩ := ok_check hchk
+  have hm := expectOf_deliver_mem hexp
+  rw [(sinv_of_run hr₁).waiters] at hm
+  have : 0 < (writtenIds (h₁ ++ Ev.ok i f t :: h₂)).count i := by
+    rw [writtenIds_append, List.count_append]
+    exact Nat.lt_of_lt_of_le (List.count_pos_iff.2 hm) (Nat.le_add_right _ _)
+  omega
 
 /-! ### the frame parser -/
 
@@ -218,7 +288,7 @@ theorem unrepaired_tag_loop_not_linear :
 /-- Two pipelined requests on connection 0 (correlation ids 1 and 2 after the handshake's 0), answered in order;
 request 7's payload is frame 1, request 8's is frame 2. -/
 example : accepts
-    [.cfg 4096 1000 true false false, .issue 7 0, .issue 8 0, .hsReq 0 0, .hsFrame 0 [0, 0, 0, 5, 0, 0, 0, 0, 9],
+    [.cfg 4096 1000 true false false false, .issue 7 0, .issue 8 0, .hsReq 0 0, .hsFrame 0 [0, 0, 0, 5, 0, 0, 0, 0, 9],
      .written ⟨0, 1, 7, false, 0⟩, .written ⟨0, 2, 8, false, 0⟩,
      .frame ⟨0, 1, [0, 0, 0, 5, 0, 0, 0, 1, 42], [0, 0, 0, 5, 0, 0, 0, 1, 42]⟩,
      .frame ⟨0, 2, [0, 0, 0, 5, 0, 0, 0, 2, 43], [0, 0, 0, 5, 0, 0, 0, 2, 43]⟩,
@@ -236,7 +306,7 @@ example : accepts
      .frame ⟨0, 1, [0, 0, 0, 5, 0, 0, 0, 2, 42], [0, 0, 0, 5, 0, 0, 0, 2, 42]⟩,
      .ok 7 1 1] = false := by decide
 example : accepts
-    [.cfg 4096 1000 false false false, .issue 7 0, .issue 8 0, .hsReq 0 0, .hsFrame 0 [0, 0, 0, 5, 0, 0, 0, 0, 9],
+    [.cfg 4096 1000 false false false false, .issue 7 0, .issue 8 0, .hsReq 0 0, .hsFrame 0 [0, 0, 0, 5, 0, 0, 0, 0, 9],
      .written ⟨0, 1, 7, false, 0⟩, .written ⟨0, 2, 8, false, 0⟩,
      .frame ⟨0, 1, [0, 0, 0, 5, 0, 0, 0, 2, 42], [0, 0, 0, 5, 0, 0, 0, 2, 42]⟩,
      .err 7 .mismatch 1, .err 8 .dead 1, .quiesce] = true := by decide
@@ -251,10 +321,47 @@ example : accepts
      .frame ⟨0, 2, [0, 0, 0, 5, 0, 0, 0, 2, 43], [0, 0, 0, 5, 0, 0, 0, 2, 43]⟩,
      .err 7 .negsize 1, .ok 8 2 1] = false := by decide
 example : accepts
-    [.cfg 4096 1000 false false false, .issue 7 0, .hsReq 0 0, .hsFrame 0 [0, 0, 0, 5, 0, 0, 0, 0, 9],
+    [.cfg 4096 1000 false false false false, .issue 7 0, .hsReq 0 0, .hsFrame 0 [0, 0, 0, 5, 0, 0, 0, 0, 9],
      .written ⟨0, 1, 7, false, 0⟩, .err 7 .timeout 1006, .quiesce] = false := by decide
 example : accepts
-    [.cfg 4096 1000 false false false, .issue 7 0, .hsReq 0 0, .hsFrame 0 [0, 0, 0, 5, 0, 0, 0, 0, 9],
+    [.cfg 4096 1000 false false false false, .issue 7 0, .hsReq 0 0, .hsFrame 0 [0, 0, 0, 5, 0, 0, 0, 0, 9],
      .written ⟨0, 1, 7, false, 0⟩, .err 7 .timeout 1000, .quiesce] = true := by decide
+
+/-- SASL, clean drain: request 7 is in flight across the session expiry, request 8 is parked behind it; 7 is answered,
+the client re-authenticates on connection 0 and replays 8, which is answered too. -/
+example : accepts
+    [.cfg 4096 3000 true false false true, .issue 7 800, .hsReq 0 0, .hsFrame 0 [0, 0, 0, 5, 0, 0, 0, 0, 9],
+     .authBegin 0 1 800, .authEnd 0 1 2000 800, .written ⟨0, 3, 7, false, 800⟩, .issue 8 1900, .park 8 1900,
+     .frame ⟨0, 1, [0, 0, 0, 5, 0, 0, 0, 3, 42], [0, 0, 0, 5, 0, 0, 0, 3, 42]⟩, .ok 7 1 2300,
+     .authBegin 0 2 2300, .authEnd 0 2 2000 2300, .written ⟨0, 6, 8, false, 2300⟩,
+     .frame ⟨0, 2, [0, 0, 0, 5, 0, 0, 0, 6, 43], [0, 0, 0, 5, 0, 0, 0, 6, 43]⟩, .ok 8 2 2300, .cpu 5, .quiesce] = true := by decide
+
+/-- SASL, the connection is cut while 8 is parked: both fail once (accepted); a replay of the failed request 8 on a new
+connection one millisecond later is refused, and so is a replay without re-authentication, a write inside the
+authentication exchange, and a re-authentication that begins while the response to 7 is still outstanding. -/
+example : accepts
+    [.cfg 4096 3000 false false false true, .issue 7 800, .hsReq 0 0, .hsFrame 0 [0, 0, 0, 5, 0, 0, 0, 0, 9],
+     .authBegin 0 1 800, .authEnd 0 1 2000 800, .written ⟨0, 3, 7, false, 800⟩, .issue 8 1900, .park 8 1900,
+     .peerClose 0, .err 7 .eof 2300, .err 8 .dead 2300, .cpu 5, .quiesce] = true := by decide
+example : accepts
+    [.cfg 4096 3000 false false false true, .issue 7 800, .hsReq 0 0, .hsFrame 0 [0, 0, 0, 5, 0, 0, 0, 0, 9],
+     .authBegin 0 1 800, .authEnd 0 1 2000 800, .written ⟨0, 3, 7, false, 800⟩, .issue 8 1900, .park 8 1900,
+     .peerClose 0, .err 7 .eof 2300, .err 8 .dead 2300,
+     .hsReq 1 0, .hsFrame 1 [0, 0, 0, 5, 0, 0, 0, 0, 9], .authBegin 1 1 2301, .authEnd 1 1 2000 2301,
+     .written ⟨1, 3, 8, false, 2301⟩] = false := by decide
+example : accepts
+    [.cfg 4096 3000 false false false true, .issue 7 800, .hsReq 0 0, .hsFrame 0 [0, 0, 0, 5, 0, 0, 0, 0, 9],
+     .authBegin 0 1 800, .authEnd 0 1 2000 800, .written ⟨0, 3, 7, false, 800⟩, .issue 8 1900, .park 8 1900,
+     .frame ⟨0, 1, [0, 0, 0, 5, 0, 0, 0, 3, 42], [0, 0, 0, 5, 0, 0, 0, 3, 42]⟩, .ok 7 1 2300,
+     .written ⟨0, 4, 8, false, 2300⟩] = false := by decide
+example : accepts
+    [.cfg 4096 3000 false false false true, .issue 7 800, .hsReq 0 0, .hsFrame 0 [0, 0, 0, 5, 0, 0, 0, 0, 9],
+     .authBegin 0 1 800, .authEnd 0 1 2000 800, .written ⟨0, 3, 7, false, 800⟩, .issue 8 1900, .park 8 1900,
+     .frame ⟨0, 1, [0, 0, 0, 5, 0, 0, 0, 3, 42], [0, 0, 0, 5, 0, 0, 0, 3, 42]⟩, .ok 7 1 2300,
+     .authBegin 0 2 2300, .written ⟨0, 5, 8, false, 2300⟩] = false := by decide
+example : accepts
+    [.cfg 4096 3000 false false false true, .issue 7 800, .hsReq 0 0, .hsFrame 0 [0, 0, 0, 5, 0, 0, 0, 0, 9],
+     .authBegin 0 1 800, .authEnd 0 1 2000 800, .written ⟨0, 3, 7, false, 800⟩, .issue 8 1900, .park 8 1900,
+     .authBegin 0 2 2300] = false := by decide
 
 end Props.C22
